@@ -81,6 +81,44 @@ for base, d in constructed():
         r2 = d.rebuild(); r3 = d.rebuild()
         if not (r1 == r2 == r3): viol.append({'what': 'repeated rebuilds of a document that holds a constructed node return different text', 'input': base, 'first': r1, 'second': r2})
     except Exception as e: viol.append({'what': 'constructed document: %s' % type(e).__name__, 'input': base})
+# ---- history with FAILING work (ninth round): a parse_file that raises half-way (a construct the library refuses) must leave nothing behind —
+# the next plain parse() of a text with relative paths builds the same tree as in a fresh process state, on this thread and on a worker
+def failing_history():
+    import tempfile, shutil
+    from nix_manipulator.parser import parse_file
+    T = tempfile.mkdtemp(prefix='nima-hist-')
+    try:
+        os.makedirs(os.path.join(T, 'a')); open(os.path.join(T, 'a', 'bad.nix'), 'w').write('{ src = http://example.org/a.tar.gz; }\n'); open(os.path.join(T, 'a', 'cfg.nix'), 'w').write('{ who = "A"; }\n')
+        open(os.path.join(T, 'a', 'bad2.nix'), 'w').write('let { body = 1; }\n')
+        probes = ['import ./cfg.nix\n', '{\n  p = ./lib/x.nix;\n  q = import ../y.nix;\n}\n']
+        import dataclasses
+        def spaths(obj, seen=None, depth=0):
+            """every source_path in the object graph (the snapshot leaves that field out because it depends on the caller's directory)"""
+            seen = seen if seen is not None else set()
+            if obj is None or isinstance(obj, (str, int, float, bool, bytes)) or id(obj) in seen or depth > 40 or type(obj).__name__ in ('Node', 'Tree'): return []
+            seen.add(id(obj)); out = []
+            if hasattr(obj, 'source_path'): out.append(str(getattr(obj, 'source_path')))
+            if isinstance(obj, (list, tuple)): out += [x for y in obj for x in spaths(y, seen, depth + 1)]
+            elif isinstance(obj, dict): out += [x for y in obj.values() for x in spaths(y, seen, depth + 1)]
+            elif dataclasses.is_dataclass(obj): out += [x for f in dataclasses.fields(obj) if f.name not in ('owner', 'node') for x in spaths(getattr(obj, f.name, None), seen, depth + 1)]
+            elif hasattr(obj, '__dict__'): out += [x for k_, y in sorted(vars(obj).items()) if k_ not in ('owner', 'node') for x in spaths(y, seen, depth + 1)]
+            return out
+        def shot(): return [(snapshot(d_), spaths(d_)) for d_ in (parse(t) for t in probes)]
+        base = shot()
+        for bad_file in ('bad.nix', 'bad2.nix'):
+            dist['failing-history'] = dist.get('failing-history', 0) + 1
+            try: parse_file(os.path.join(T, 'a', bad_file)); raised = False
+            except Exception: raised = True
+            if raised and shot() != base: viol.append({'what': 'a parse_file that raised changes what a later parse() of a text with relative paths builds (state leaked from the failed call)', 'input': probes[0], 'earlier': bad_file}); return
+        res_ = []
+        def worker():
+            try: parse_file(os.path.join(T, 'a', 'bad.nix'))
+            except Exception: pass
+            res_.append(shot())
+        th = threading.Thread(target=worker); th.start(); th.join()
+        if res_ and res_[0] != base: viol.append({'what': 'on a worker thread a parse_file that raised changes what a later parse() builds', 'input': probes[0], 'earlier': 'bad.nix'})
+    finally: shutil.rmtree(T, ignore_errors=True)
+failing_history()
 def norm(q): return q.replace('.<locals>', '')
 ran_n = {(f, norm(q)) for f, q in ran if '<genexpr>' not in q and '<lambda>' not in q and '<listcomp>' not in q}
 missing = sorted(ran_n - static_set)
